@@ -45,6 +45,8 @@ type Prog struct {
 	catchMemo      *catchAnalysis
 	unitsMemo      map[*ssa.Function][]*nodeUnit
 	wrappersMemo   []wrapperInfo
+	notConsumerFn   *ssa.Function
+	notConsumerDone bool
 	entryMemo      map[*ssa.Function]*entryResult
 	shapeMemo      map[*ssa.Function]predShape
 }
